@@ -349,7 +349,246 @@ def locator_walk_heights(n, one_day=8192):
         idx -= step
 
 
-OBLIGATIONS = [m1_skip_height, m2_ancestor_step, m3_header_view_codec, m4_locator]
+def m5_fast_path_reads_one_snapshot(S):
+    """The main-chain shortcut of `ActiveChain::get_ancestor_internal` (used by get_ancestor, get_locator, last_common_ancestor) replaces the parent walk by a number->hash lookup
+    when the current block is on the main chain and not above the tip.  That is only equal to walking parent links if the three answers -- `is_main_chain`, `tip_number` and
+    `get_block_hash` -- come from the *same* chain view: all three must read the snapshot captured in the ActiveChain (a live-store read could already reflect a later reorganisation).
+    Also: the closure takes the shortcut only under `current.number <= tip_number && on_chain(current.hash)` (read from the source of the closure, which MIR keeps as a separate body)."""
+    ob = "C17.m5"
+    from mir2smt.srcinfo import struct_fields
+    fields = struct_fields("sync/src/types/mod.rs", "ActiveChain")
+    for short, snap_method in (("get_block_hash", "get_block_hash"), ("is_main_chain", "is_main_chain"), ("tip_number", "tip_number")):
+        f = [x for x in S.prog.funcs if x.kind == "fn" and x.short == short and re.search(r"impl ActiveChain\b", x.impl_header or "")]
+        if len(f) != 1:
+            raise Inconclusive(f"ActiveChain::{short}: {len(f)} candidates")
+        ctx = S.ctx()
+        reads = []
+
+        def nmv(ex, v):
+            v = deref(ex, v)
+            return getattr(v, "name", None) or type(v).__name__
+
+        def read(ex, c, a, d, reads=reads):
+            reads.append((c, nmv(ex, a[0])))
+            return ex.ctx.fresh_of_type("answer", d) if d.strip() in ("bool", "u64") else OpaqueV("answer", d)
+        ctx.env = [
+            (E.rx(r"SyncShared::(store|shared|state)$"), lambda ex, c, a, d: ex.ctx.ref_to(OpaqueV("live_" + c.split("::")[-1], "?"))),
+            (E.rx(r"as Deref>::deref$"), lambda ex, c, a, d: ex.ctx.ref_to(OpaqueV(nmv(ex, a[0]), "?"))),
+            (E.rx(r"(Snapshot|ChainDB|ChainStore>?|Shared)::" + snap_method + "$"), read),
+        ]
+        me = AggV(tuple(OpaqueV("field_" + n, "?") for n in fields), "ActiveChain")
+        args = [ctx.ref_to(me)] + ([ctx.int("number", "u64")] if short == "get_block_hash" else [ctx.ref_to(OpaqueV("hash", "Byte32"))] if short == "is_main_chain" else [])
+        ps = S.run(ctx, f[0], args)
+        S.prove(ctx, ob, f"ActiveChain_{short}_answers_from_the_captured_snapshot", [], bool(len(reads) == 1 and reads[0][1] == "field_snapshot" and not panics(ps) and len(returns(ps)) >= 1),
+                extra={"note": str(reads)})
+    # the shortcut closure itself (a separate MIR body): taken iff current.number <= tip_number and the on-chain test of current.hash holds; it then asks get_block_hash for
+    # the *target* number and looks that hash up in the header index
+    cl = [x for x in S.prog.funcs if "get_ancestor_internal::{closure#" in x.name and len(x.params) == 3 and "BlockNumberAndHash" in x.params[2][1]]
+    if len(cl) != 1:
+        raise Inconclusive(f"fast scanner closure: {len(cl)} candidates")
+    ctx = S.ctx()
+    on_chain = ctx.bool("current_is_on_chain"); known = ctx.bool("number_has_main_chain_hash")
+    number = ctx.int("target_number", "u64")
+    asked, looked, tested = [], [], []
+
+    def nmv(ex, v):
+        v = deref(ex, v)
+        return getattr(v, "name", None) or type(v).__name__
+
+    def gbh(ex, c, a, d):
+        asked.append((deref(ex, a[1]).t, list(ex.pc)))
+        return mk_option(known.t, OpaqueV("main_chain_hash_at_target", "Byte32"), d)
+
+    def ghiv(ex, c, a, d):
+        looked.append((nmv(ex, a[1]), list(ex.pc)))
+        return mk_option(ex.ctx.bool("view_known").t, OpaqueV("view_of_main_chain_hash", "HeaderIndexView"), d)
+
+    def onchain(ex, c, a, d):
+        tested.append(nmv(ex, a[1]) if len(a) > 1 else "?")
+        return on_chain
+    ctx.env = [
+        (E.rx(r"ActiveChain::get_block_hash$"), gbh),
+        (E.rx(r"SyncShared::get_header_index_view$"), ghiv),
+        (E.rx(r"\{closure@sync/src/types/mod\.rs:[^}]*\} as Fn<\(&.*Byte32,\)>>::call$|ActiveChain::(is_main_chain|is_unverified_chain)$"), onchain),
+    ]
+    cur = AggV((ctx.int("current_number", "u64"), OpaqueV("current_hash", "Byte32")), "BlockNumberAndHash")
+    fi = {n: i for i, n in enumerate(struct_fields("util/types/src/core/extras.rs", "BlockNumberAndHash"))} if False else None
+    ps = S.run(ctx, cl[0], [ctx.ref_to(OpaqueV("captures", cl[0].params[0][1].lstrip("&"))), number, cur])
+    S.prove(ctx, ob, "shortcut_closure_no_panic", [], T.not_(cond_of(panics(ps))))
+    tipsyms = [n for n in ctx.decls if n.startswith("captures.")]
+    taken = T.or_(*[T.and_(*pc) for _, pc in asked]) if asked else False
+    S.prove(ctx, ob, "shortcut_reads_exactly_one_captured_integer_the_tip_number", [], bool(len(tipsyms) == 1), extra={"note": str(tipsyms)})
+    if len(tipsyms) == 1:
+        tipn = T.var(tipsyms[0])
+        S.prove(ctx, ob, "shortcut_taken_iff_current_not_above_tip_and_on_chain", [], T.iff(taken, T.and_(T.le(T.var("current_number"), tipn), on_chain.t)))
+    S.prove(ctx, ob, "on_chain_test_is_about_the_current_hash", [], bool(tested and all(t == "current_hash" for t in tested)), extra={"note": str(tested)})
+    S.prove(ctx, ob, "shortcut_asks_for_the_target_number", [], bool(asked) and T.and_(*[T.implies(T.and_(*pc), T.eq(t, number.t)) for t, pc in asked]))
+    S.prove(ctx, ob, "shortcut_looks_up_the_main_chain_hash_it_got", [], bool(looked and all(n == "main_chain_hash_at_target" for n, _ in looked)), extra={"note": str(looked)})
+    rs = returns(ps)
+    some = [p for p in rs if isinstance(p.value, EnumV) and p.value.disc == 1]
+    S.prove(ctx, ob, "shortcut_result_is_the_view_of_that_hash", [], bool(some and all(nmv(None, p.value.payload(1)[0]) == "view_of_main_chain_hash" for p in some)))
+    S.witness(ctx, ob, "reach_shortcut", [], taken)
+
+
+def m6_header_map_two_tiers_refine_a_plain_map(S):
+    """`HeaderMapKernel` (memory tier + spill backend) answers like ONE plain map, whatever is where: with the abstract lookup
+    A(k) = memory(k) if present else backend(k), one call of contains_key / get / insert / remove from an ARBITRARY tier state (key h in memory, in the backend, in both -- a stale
+    spilled copy under a re-inserted key -- or in neither) has exactly the plain-map effect on h and touches no other key: contains_key = (A(h) present), get returns A(h) and
+    leaves A unchanged (the entry moves to memory), insert makes A(h) the inserted view, remove makes A(h) absent in BOTH tiers.  Inductive step, so any history of operations
+    and spills.  The tiers themselves (MemoryMap = LinkedHashMap, sled/rocksdb backend) are environment symbols with the contract of a map; `limit_memory` is judged by
+    provenance: what is written to the backend is what is then removed from memory."""
+    ob = "C17.m6"
+    from mir2smt.srcinfo import struct_fields
+    fields = struct_fields("shared/src/types/header_map/kernel_lru.rs", "HeaderMapKernel")
+    fields = [f for f in fields if f != "stats"]
+
+    def fn(short):
+        f = [x for x in S.prog.funcs if x.kind == "fn" and x.short == short and "header_map/kernel_lru.rs" in x.name and re.search(r"HeaderMapKernel<Backend>", x.params[0][1] if x.params else "")]
+        if len(f) != 1:
+            raise Inconclusive(f"HeaderMapKernel::{short}: {len(f)} candidates")
+        return f[0]
+
+    def setup():
+        ctx = S.ctx()
+        st0 = {"mem": ctx.bool("h_in_memory").t, "mv": ctx.int("memory_view_of_h", "u64").t, "back": ctx.bool("h_in_backend").t, "bv": ctx.int("backend_view_of_h", "u64").t}
+        back_empty = ctx.bool("backend_is_empty")
+        inv = [T.implies(back_empty.t, T.not_(st0["back"]))]
+
+        def nmv(ex, v):
+            v = deref(ex, v)
+            return getattr(v, "name", None) or type(v).__name__
+
+        def fold(log):
+            st = dict(st0)
+            for e in log:
+                if e[0] != "tier":
+                    continue
+                op, arg = e[2][0], e[2][2]
+                if op == "mem_remove":
+                    st["mem"] = False
+                elif op == "mem_insert":
+                    st["mem"] = True
+                    st["mv"] = arg
+                elif op in ("back_remove", "back_remove_no_return"):
+                    st["back"] = False
+            return st
+
+        def tier(op, ret):
+            def h(ex, c, a, d):
+                st = fold(ex.log)
+                key = nmv(ex, a[1]) if len(a) > 1 else ""
+                arg = deref(ex, a[1]).t if len(a) > 1 and isinstance(deref(ex, a[1]), IntV) else None
+                ex.log.append(("tier", c, [op, key, arg], list(ex.pc)))
+                return ret(ex, st, d)
+            return h
+        me = AggV(tuple(OpaqueV("tier_" + n, "?") for n in fields), "HeaderMapKernel")
+        ctx.env = list(E.LOGGING_OFF) + [
+            (E.rx(r"as Deref>::deref$"), lambda ex, c, a, d: ex.ctx.ref_to(OpaqueV(nmv(ex, a[0]), "?"))),
+            (E.rx(r"AtomicBool::load$"), lambda ex, c, a, d: ex.ctx.bool("ibd_finished")),
+            (E.rx(r"MemoryMap::contains_key$"), tier("mem_contains", lambda ex, st, d: BoolV(st["mem"]))),
+            (E.rx(r"MemoryMap::get_refresh$"), tier("mem_get", lambda ex, st, d: mk_option(st["mem"], IntV(st["mv"], "u64"), d))),
+            (E.rx(r"MemoryMap::insert$"), tier("mem_insert", lambda ex, st, d: mk_option(ex.ctx.bool("was_new").t, UNIT, d))),
+            (E.rx(r"MemoryMap::remove$"), tier("mem_remove", lambda ex, st, d: UNIT)),
+            (E.rx(r"KeyValueBackend>::is_empty$"), lambda ex, c, a, d: back_empty),
+            (E.rx(r"KeyValueBackend>::contains_key$"), tier("back_contains", lambda ex, st, d: BoolV(st["back"]))),
+            (E.rx(r"KeyValueBackend>::remove$"), tier("back_remove", lambda ex, st, d: mk_option(st["back"], IntV(st["bv"], "u64"), d))),
+            (E.rx(r"KeyValueBackend>::remove_no_return$"), tier("back_remove_no_return", lambda ex, st, d: UNIT)),
+            (E.rx(r"HeaderIndexView as Clone>::clone$"), lambda ex, c, a, d: deref(ex, a[0])),
+        ]
+        return ctx, st0, inv, fold, me
+
+    def lookup(st):
+        """abstract lookup of h: (present, view)"""
+        return T.or_(st["mem"], st["back"]), T.ite(st["mem"], st["mv"], st["bv"])
+
+    def frame(ps):
+        keys = [(e[2][0], e[2][1]) for p in ps for e in p.log if e[0] == "tier"]
+        return keys
+    WRITES = ("mem_remove", "mem_insert", "back_remove", "back_remove_no_return")
+    # ---- contains_key
+    ctx, st0, inv, fold, me = setup()
+    ps = S.run(ctx, fn("contains_key"), [ctx.ref_to(me), ctx.ref_to(OpaqueV("h", "Byte32"))])
+    S.prove(ctx, ob, "contains_key_no_panic", inv, T.not_(cond_of(panics(ps))))
+    S.prove(ctx, ob, "contains_key_is_presence_in_the_abstract_map", inv, T.iff(merged(ps, as_bool), lookup(st0)[0]))
+    S.prove(ctx, ob, "contains_key_reads_only_key_h_and_writes_nothing", [], bool(all(k == "h" and op not in WRITES for op, k in frame(ps))), extra={"note": str(frame(ps))})
+    # ---- get
+    ctx, st0, inv, fold, me = setup()
+    ps = S.run(ctx, fn("get"), [ctx.ref_to(me), ctx.ref_to(OpaqueV("h", "Byte32"))])
+    S.prove(ctx, ob, "get_no_panic", inv, T.not_(cond_of(panics(ps))))
+    pres0, val0 = lookup(st0)
+    bad = []
+    for p in returns(ps):
+        v = p.value
+        some = T.eq(v.disc, 1) if isinstance(v, EnumV) and not isinstance(v.disc, int) else (bool(v.disc == 1) if isinstance(v, EnumV) else None)
+        if some is None:
+            raise Inconclusive("get: unexpected return value")
+        pay = v.payload(1)[0].t if isinstance(v, EnumV) and v.disc != 0 and v.payload(1) else None
+        st1 = fold(p.log)
+        pres1, val1 = lookup(st1)
+        ok = T.and_(T.iff(some, pres0), T.implies(pres0, T.eq(pay, val0)) if pay is not None else T.not_(pres0), T.iff(pres1, pres0), T.implies(pres0, T.eq(val1, val0)))
+        bad.append(T.and_(p.cond(), T.not_(ok)))
+    S.prove(ctx, ob, "get_returns_the_abstract_lookup_and_leaves_the_abstract_map_unchanged", inv, T.not_(T.or_(*bad)))
+    S.prove(ctx, ob, "get_touches_only_key_h", [], bool(all(k == "h" or op == "mem_insert" for op, k in frame(ps))), extra={"note": str(frame(ps))})
+    ins = [(e[2][2], e[3]) for p in ps for e in p.log if e[0] == "tier" and e[2][0] == "mem_insert"]
+    S.prove(ctx, ob, "get_promotes_exactly_the_view_taken_out_of_the_backend", inv, bool(ins) and T.and_(*[T.implies(T.and_(*pc), T.eq(a, st0["bv"])) for a, pc in ins]))
+    # ---- insert
+    ctx, st0, inv, fold, me = setup()
+    view = ctx.int("inserted_view", "u64")
+    ps = S.run(ctx, fn("insert"), [ctx.ref_to(me), view])
+    S.prove(ctx, ob, "insert_no_panic", inv, T.not_(cond_of(panics(ps))))
+    bad = []
+    for p in returns(ps):
+        pres1, val1 = lookup(fold(p.log))
+        bad.append(T.and_(p.cond(), T.not_(T.and_(pres1, T.eq(val1, view.t)))))
+    S.prove(ctx, ob, "insert_makes_the_abstract_lookup_return_the_inserted_view", inv, T.not_(T.or_(*bad)))
+    S.prove(ctx, ob, "insert_writes_only_the_inserted_view", [], bool([op for op, k in frame(ps)] == ["mem_insert"] * len(returns(ps))), extra={"note": str(frame(ps))})
+    # ---- remove
+    ctx, st0, inv, fold, me = setup()
+    ps = S.run(ctx, fn("remove"), [ctx.ref_to(me), ctx.ref_to(OpaqueV("h", "Byte32"))])
+    S.prove(ctx, ob, "remove_no_panic", inv, T.not_(cond_of(panics(ps))))
+    bad = []
+    for p in returns(ps):
+        pres1, _ = lookup(fold(p.log))
+        bad.append(T.and_(p.cond(), pres1))
+    S.prove(ctx, ob, "remove_leaves_h_absent_from_both_tiers", inv, T.not_(T.or_(*bad)))
+    S.prove(ctx, ob, "remove_touches_only_key_h", [], bool(all(k == "h" for op, k in frame(ps))), extra={"note": str(frame(ps))})
+    S.witness(ctx, ob, "reach_remove_with_stale_spilled_copy", inv, T.and_(st0["mem"], st0["back"], T.or_(*[p.cond() for p in returns(ps)])))
+    # ---- limit_memory: provenance
+    ctx = S.ctx()
+    ctx.uninterpreted_unknown_calls = True
+    calls = []
+
+    def nmv2(ex, v):
+        v = deref(ex, v)
+        return getattr(v, "name", None) or type(v).__name__
+
+    def lg(tag, ret=None):
+        def h(ex, c, a, d):
+            calls.append((tag, [nmv2(ex, x) for x in a[1:]], list(ex.pc)))
+            return ret(ex, d) if ret else UNIT
+        return h
+    some_vals = ctx.bool("over_limit")
+    ctx.env = list(E.LOGGING_OFF) + [
+        (E.rx(r"Option::<.*>::map::<.*HistogramTimer"), lambda ex, c, a, d: mk_option(False, None, d)),
+        (E.rx(r"as Deref>::deref$"), lambda ex, c, a, d: ex.ctx.ref_to(OpaqueV(nmv2(ex, a[0]), "?"))),
+        (E.rx(r"AtomicBool::load$"), lambda ex, c, a, d: ex.ctx.bool("ibd_finished")),
+        (E.rx(r"MemoryMap::front_n$"), lg("front_n", lambda ex, d: mk_option(some_vals.t, OpaqueV("spilled_values", "Vec<HeaderIndexView>"), d))),
+        (E.rx(r"KeyValueBackend>::insert_batch$"), lg("insert_batch")),
+        (E.rx(r"MemoryMap::remove_batch::<"), lg("remove_batch")),
+        (E.rx(r"block_in_place::<"), lambda ex, c, a, d: ex.call_value(ex.top_frame, a[0], [], d)),
+    ]
+    me = AggV(tuple(OpaqueV("tier_" + n, "?") if n != "memory_limit" else ctx.int("memory_limit", "usize") for n in fields), "HeaderMapKernel")
+    ps = S.run(ctx, fn("limit_memory"), [ctx.ref_to(me)])
+    S.prove(ctx, ob, "limit_memory_no_panic", [], T.not_(cond_of(panics(ps))))
+    ib = [c for c in calls if c[0] == "insert_batch"]
+    rb = [c for c in calls if c[0] == "remove_batch"]
+    S.prove(ctx, ob, "limit_memory_spills_the_values_it_took_then_removes_the_same_values_from_memory", [],
+            bool(ib and rb and all("spilled_values" in a[0] for _, a, _ in ib) and all("spilled_values" in a[0] for _, a, _ in rb)), extra={"note": str([(t, a) for t, a, _ in calls])})
+    S.prove(ctx, ob, "limit_memory_writes_backend_before_dropping_from_memory", [], bool(calls and [t for t, _, _ in calls if t != "front_n"][:2] == ["insert_batch", "remove_batch"]), extra={"note": str([t for t, _, _ in calls])})
+    S.prove(ctx, ob, "limit_memory_asks_for_the_configured_limit", [], bool([a for t, a, _ in calls if t == "front_n"] and all(a[0] == "IntV" for t, a, _ in calls if t == "front_n")), extra={"note": str(calls[:1])})
+
+
+OBLIGATIONS = [m1_skip_height, m2_ancestor_step, m3_header_view_codec, m4_locator, m5_fast_path_reads_one_snapshot, m6_header_map_two_tiers_refine_a_plain_map]
 
 ENGINE = "M"
 LEVEL = "other"
